@@ -18,7 +18,10 @@ LEVEL_TEXT = ("Theorems in Coq (Properties/C16.v). For EVERY well-formed state a
               "with UNEXPECTED_VERSION_ID otherwise (c16_exact, c16_exact_put, c16_last_vals_exists). Determinism across replicas is C06. Subscriber: after any interleaving "
               "of WriteLast and Receive the receiver ends with the last value written (c16_latest_observed_cell); for every schedule of writer, GetSequenceUpdates and "
               "receiver, once nothing is in progress the receiver ends with the highest committed key of the prefix and never saw anything but committed keys "
-              "(c16_latest_observed); the waiters are told exactly the keys reported by a committed batch and nothing by a failed one (c16_events_committed, "
+              "(c16_latest_observed); with any number of subscribers on any prefixes subscribing, closing, receiving and being published to in any order, every open subscriber "
+              "ends with its initial value or the last key published for its prefix since it subscribed, and a closed one is out of the tracker's map "
+              "(c16_latest_observed_all_waiters, c16_closed_waiter_unregistered: waiter ids come from a tracker-wide counter; refuted for ids that are only unique among the "
+              "waiters currently registered, c16_latest_observed_len_ids_refuted); the waiters are told exactly the keys reported by a committed batch and nothing by a failed one (c16_events_committed, "
               "c16_events_none_on_failure). Refuted for the code as it was and repaired in the tree: O-15 uint64 wrap-around - new key not greater, existing record silently "
               "replaced, a 2^64-1 suffix invisible to FindLower (c16_overflow_old_refuted_*); a plain key under the prefix (e.g. 's-0x') made two puts generate the same key "
               "(now refused: the new key must sort after the current last key); O-16 - SequenceUpdated before Commit and with \"\" on failure, registration not atomic with the "
@@ -27,7 +30,9 @@ LEVEL_NOTE = ("Partial: proof about a hand-written model, tied to the code by di
               "and its canonicalisation. Modelled, not verified: Pebble as an ordered map (FindLower = greatest key below; reverse iterators are snapshots taken at creation), "
               "Go channels and sync.RWMutex (a buffered channel of capacity 1; the tracker's write lock excludes SequenceUpdated), fmt.Sscanf on single-byte white space. "
               "'Eventually observes' is stated as: in every schedule, once no request and no subscription is in progress, the receiver that takes what is buffered holds the "
-              "latest key - not as a real-time bound. The tracker model has one subscriber and one writer (waiters are independent; the controllers apply one request at a time); "
+              "latest key - not as a real-time bound. The schedule model (step_new) has one subscriber and one writer (the controllers apply one request at a time); that waiters are independent of one another, "
+              "whatever the order of subscriptions and closes, is the separate theorem c16_latest_observed_all_waiters over the tracker's map (tstep), whose steps are atomic "
+              "(each runs under the tracker's lock); "
               "a batch with several sequence puts of one prefix publishes their keys in order and is modelled by its last key. 'Greater than every existing key of the prefix' "
               "is claimed for the keys below prefix-%020d(2^64-1) (all keys of the prefix in seq_wf states); a plain key such as 's-9' above that bound is never looked at. "
               "Deleting the key a batch itself generated (same request) still tells the waiters that key. "
@@ -44,8 +49,10 @@ RULE = ("seq: one case = 15-40 requests against a fresh real DB, 1-3 puts each, 
         "written under the prefixes; every response and dump digest compared with the model, every sequence put checked against the big-integer reference; "
         "sub: one case = a forced schedule of 4-12 steps (writes held between key generation and commit, failing batches, subscriptions before / during / after writes, "
         "commits placed between the subscriber's read and its initial write, receives) compared with the transition system; "
+        "msub (in the sub leg): several subscribers on two prefixes subscribing / closing / receiving between sequence puts in every order, incl. the scripted "
+        "'A,B subscribe; A closes; C subscribes; puts; B closes; puts', compared with the tracker model (tstep) and checked directly; "
         "rpc: one case = 8-20 steps through WriteBlock of a real rf=1 leader (sequence puts, deletes of the highest / of middle generated keys, other puts) with subscribers attached "
-        "through publicRpcServer.GetSequenceUpdates before / between / after the writes; distinct by generator sub-seed")
+        "through publicRpcServer.GetSequenceUpdates before / between / after the writes, on the prefix and on another one, and leaving (stream context cancelled) in any order; distinct by generator sub-seed")
 LEGS = [
     {"name": "seq", "harness": "db", "model": "db", "n_quick": 400, "n_thorough": 20000, "args": ["-mode", "c16seq"],
      "corpus": "corpus/db16/seq", "timeout": 900, "timeout_thorough": 3000},
